@@ -2669,6 +2669,7 @@ class Recipe:
 
         delta = 0
         states = 0  # how many well / container states were summed: each was rounded to the internal precision
+        magnitude = 0  # ... and how much of the substance they held in all
 
         if timeframe not in self.stages.keys():
             raise ValueError("Invalid timeframe")
@@ -2698,9 +2699,11 @@ class Recipe:
             delta += after_substances - before_substances
             states += sum(2 * (elem.wells.size if isinstance(elem, Plate) else 1) for elem in (step.to[0], step.frm[0])
                           if elem is not None and elem.name in dest_names)
+            magnitude += abs(before_substances) + abs(after_substances)
 
-        # a net change of zero comes out as rounding noise of either sign
-        if -states * 10 ** -config.internal_precision <= delta < 0:
+        # a net change of zero comes out as rounding noise of either sign (of the stored decimals, and of the last digits of
+        # a float when litres of a substance are involved)
+        if -(states * 10 ** -config.internal_precision + 1e-14 * magnitude) <= delta < 0:
             delta = 0
         if delta < 0:
             raise ValueError(
